@@ -89,12 +89,16 @@ impl TryFrom<(FeelNumber, FeelNumber, FeelNumber)> for FeelDate {
   type Error = DmntkError;
   /// Converts a tuple of numbers into [FeelDate].
   fn try_from(value: (FeelNumber, FeelNumber, FeelNumber)) -> Result<Self, Self::Error> {
-    let year = value.0.into();
-    if value.1 > FeelNumber::zero() && value.2 > FeelNumber::zero() {
-      let month = value.1.into();
-      let day = value.2.into();
-      if is_valid_date(year, month, day) {
-        return Ok(Self(year, month, day));
+    let is_integer = |number: &FeelNumber| number.trunc() == *number;
+    if is_integer(&value.0) && is_integer(&value.1) && is_integer(&value.2) {
+      // the components are narrowed only when they fit in the target types
+      if (-999_999_999..=999_999_999).contains(&value.0) && (1..=12).contains(&value.1) && (1..=31).contains(&value.2) {
+        let year = value.0.into();
+        let month = value.1.into();
+        let day = value.2.into();
+        if is_valid_date(year, month, day) {
+          return Ok(Self(year, month, day));
+        }
       }
     }
     Err(invalid_date(value.0.into(), value.1.into(), value.2.into()))
